@@ -54,7 +54,9 @@ def effect_obligations(ctx: RunCtx):
             continue   # the one handler that calls mutators on purpose: decided by its functional contract (queue unchanged on every exit)
         bad, seen, absent = [], set(), []
         for fm, fname in h.reachable(m, name):
-            for role, meth, ln in h.component_calls(h.funcs[(fm, fname)], set(COMPONENTS)):
+            for desc, ln in h.edits_of_backend_values(h.funcs[(fm, fname)], fm, set(COMPONENTS)):
+                bad.append(f"{desc} [{fm.split('.')[-1]}.{fname}:{ln}]")
+            for role, meth, ln in h.component_calls(h.funcs[(fm, fname)], set(COMPONENTS), {r: set(eff[r]) for r in eff}):
                 if (role, meth) in seen:
                     continue
                 seen.add((role, meth))
